@@ -259,6 +259,10 @@ func (r *Run) finish(start time.Time, extra map[string]any, writeEvidence bool) 
 	for k, v := range extra {
 		cov[k] = v
 	}
+	if r.assume == nil {
+		r.assume = []string{}
+	}
+	r.assume = append(r.assume, "source files parse and type-check as the Go toolchain sees them (no build tags in the repository)", "third-party libraries behave as documented")
 	ev := Evidence{PropertyID: r.Prop, Tier: r.Tier, Seed: r.Seed, Level: "other", Coverage: cov, Assumptions: r.assume, WallS: time.Since(start).Seconds(), Violations: viol}
 	if writeEvidence {
 		dir := filepath.Join(verifDir(), "evidence")
